@@ -32,9 +32,11 @@ Inductive step :=
 | SDropSleep (d : N)                    (* Box::pin(sleep(d)) polled once, then dropped *)
 | SLog
 | SHandOver (ch d : N)                  (* Box::pin(sleep(d)) polled once, then sent on channel ch of the module *)
-| SRecvAwait (ch : N).                  (* receive a boxed Sleep from channel ch (log), await it (log) *)
+| SRecvAwait (ch : N)                   (* receive a boxed Sleep from channel ch (log), await it (log) *)
+| STimeoutRecv (d ch : N)               (* timeout(d, receive from channel ch).await; a received Sleep is dropped *)
+| SSelRecv (recv_first : bool) (ch d : N).  (* select! { biased; x = receive from ch => 0 (x dropped), sleep(d) => 1 } *)
 
-Inductive vstate := VSleep (s : sleep) | VFlip (polled : bool).
+Inductive vstate := VSleep (s : sleep) | VFlip (polled : bool) | VRecv (ch : N) | VGot (s : sleep).
 
 (* the future a blocked task is awaiting *)
 Inductive aw :=
@@ -43,7 +45,8 @@ Inductive aw :=
 | AwSelect (biased tie : bool) (a b : sleep)
 | AwTick
 | AwRecv (ch : N)                       (* waiting for a boxed Sleep on channel ch *)
-| AwHeld (tr : N) (s : sleep).          (* received at tr, awaiting the received Sleep *)
+| AwHeld (tr : N) (s : sleep)           (* received at tr, awaiting the received Sleep *)
+| AwSelRecv (recv_first : bool) (ch : N) (s : sleep).
 
 (* the channels: (module, channel, sending task, the boxed Sleep), oldest first *)
 Definition mailbox := list (N * N * nat * sleep).
@@ -66,10 +69,12 @@ Definition vpoll (now : N) (v : vstate) (dr : driver) : bool * vstate * driver :
   match v with
   | VSleep s => let '(r, s', dr') := sleep_poll now s dr in (r, VSleep s', dr')
   | VFlip p => (p, VFlip true, dr)
+  | VRecv ch => (false, VRecv ch, dr)       (* the channels are looked at by [vpoll_m] *)
+  | VGot s => (true, VGot s, dr)
   end.
 
 Definition vdrop (v : vstate) (dr : driver) : driver :=
-  match v with VSleep s => sleep_drop s dr | VFlip _ => dr end.
+  match v with VSleep s => sleep_drop s dr | VGot s => sleep_drop s dr | _ => dr end.
 
 Definition self_wakes (v : vstate) : bool := match v with VFlip false => true | _ => false end.
 
@@ -110,6 +115,19 @@ Definition poll_aw0 (now : N) (a : aw) (iv : option interval) (dr : driver)
   | AwHeld tr s =>
     let '(r, s', dr') := sleep_poll now s dr in
     ((if r then Some [tr; now] else None), AwHeld tr s', iv, dr', false)
+  | AwSelRecv rf ch s => (None, AwSelRecv rf ch s, iv, dr, false)   (* see [poll_aw] *)
+  end.
+
+(* the value future of a timeout with the channels of module m at hand: a receive is Ready
+   with the oldest boxed Sleep of its channel *)
+Definition vpoll_m (m now : N) (vm : vstate * mailbox) (dr : driver) : bool * (vstate * mailbox) * driver :=
+  match fst vm with
+  | VRecv ch =>
+    match mail_take m ch (snd vm) with
+    | Some (s, mail') => (true, (VGot s, mail'), dr)
+    | None => (false, vm, dr)
+    end
+  | v => let '(r, v', dr') := vpoll now v dr in (r, (v', snd vm), dr')
   end.
 
 (* ... with the channels of module m: a waiting receiver takes the oldest boxed Sleep of its
@@ -122,6 +140,29 @@ Definition poll_aw (now m : N) (a : aw) (iv : option interval) (dr : driver) (ma
     | Some (s, mail') => (poll_aw0 now (AwHeld now s) iv dr, mail')
     | None => (None, AwRecv ch, iv, dr, false, mail)
     end
+  | AwTimeout v dl =>
+    let '(res, vm', dl', dr') := timeout_poll (vpoll_m m) now (v, mail) dl dr in
+    match res with
+    | TPending => (None, AwTimeout (fst vm') dl', iv, dr', self_wakes v, snd vm')
+    | TOk => (Some [now; 1], AwTimeout (fst vm') dl', iv, sleep_drop dl' (vdrop (fst vm') dr'), false, snd vm')
+    | TElapsed => (Some [now; 0], AwTimeout (fst vm') dl', iv, sleep_drop dl' (vdrop (fst vm') dr'), false, snd vm')
+    end
+  | AwSelRecv rf ch s =>
+    if rf then
+      match mail_take m ch mail with
+      | Some (x, mail') => (Some [now; 0], AwSelRecv rf ch s, iv, sleep_drop x (sleep_drop s dr), false, mail')
+      | None =>
+        let '(r, s', dr') := sleep_poll now s dr in
+        if r then (Some [now; 1], AwSelRecv rf ch s', iv, sleep_drop s' dr', false, mail)
+        else (None, AwSelRecv rf ch s', iv, dr', false, mail)
+      end
+    else
+      let '(r, s', dr') := sleep_poll now s dr in
+      if r then (Some [now; 1], AwSelRecv rf ch s', iv, sleep_drop s' dr', false, mail)
+      else match mail_take m ch mail with
+           | Some (x, mail') => (Some [now; 0], AwSelRecv rf ch s', iv, sleep_drop x (sleep_drop s' dr'), false, mail')
+           | None => (None, AwSelRecv rf ch s', iv, dr', false, mail)
+           end
   | _ => (poll_aw0 now a iv dr, mail)
   end.
 
@@ -151,6 +192,8 @@ Definition start_step0 (now : N) (s : step) (iv : option interval) (dr : driver)
   | SLog => (None, iv, dr, nid, lg ++ [now])
   | SHandOver _ _ => (None, iv, dr, nid, lg)          (* see [start_step] *)
   | SRecvAwait ch => (Some (AwRecv ch), iv, dr, nid, lg)
+  | STimeoutRecv d ch => (Some (AwTimeout (VRecv ch) (sleep_new (now + d) nid)), iv, dr, nid + 1, lg)
+  | SSelRecv rf ch d => (Some (AwSelRecv rf ch (sleep_new (now + d) nid)), iv, dr, nid + 1, lg)
   end.
 
 (* ... for task k of module m, with the channels *)
@@ -215,7 +258,8 @@ Definition held_sleeps (a : option aw) (iv : option interval) : list sleep :=
   match a with
   | Some (AwSleep s) => [s]
   | Some (AwTimeout (VSleep s) dl) => [s; dl]
-  | Some (AwTimeout (VFlip _) dl) => [dl]
+  | Some (AwTimeout _ dl) => [dl]
+  | Some (AwSelRecv _ _ s) => [s]
   | Some (AwSelect _ _ a b) => [a; b]
   | Some AwTick => match iv with Some i => [iv_delay i] | None => [] end
   | Some (AwHeld _ s) => [s]
@@ -251,16 +295,24 @@ Definition poll_task (wfix : bool) (now m : N) (k : nat) (w : world) : world * b
         w_mail := mail |}, sw)
   end.
 
+Definition waits_on (a : option aw) : option N :=
+  match a with
+  | Some (AwRecv ch) => Some ch
+  | Some (AwTimeout (VRecv ch) _) => Some ch
+  | Some (AwSelRecv _ ch _) => Some ch
+  | _ => None
+  end.
+
 (* receivers of module m that are blocked on a channel that holds a boxed Sleep: the send woke them *)
 Fixpoint ready_receivers (m : N) (mail : mailbox) (i : nat) (ts : list task) : list nat :=
   match ts with
   | [] => []
   | tk :: r =>
-    match t_cur tk with
-    | Some (AwRecv ch) =>
+    match waits_on (t_cur tk) with
+    | Some ch =>
       if (t_mod tk =? m) && (match mail_take m ch mail with Some _ => true | None => false end)
       then i :: ready_receivers m mail (S i) r else ready_receivers m mail (S i) r
-    | _ => ready_receivers m mail (S i) r
+    | None => ready_receivers m mail (S i) r
     end
   end.
 
@@ -370,11 +422,14 @@ Definition run_tasks (wfix : bool) (ts : list task) : world * bool :=
    task   := len [ mod start step* ]      (length-prefixed)   module = mod mod modules;
                                           start = 0: spawned by at_sim_start, else by a message at [start]
    step   := 1 d | 2 t | 3 d k x | 4 f a b | 5 p beh k b1..bk | 6 f d1 d2 | 7 d | 8 | 9 ch d | 10 ch
+             | 11 d ch | 12 f ch d
      3: timeout(d, if k even then sleep(x) else flip)       4: f odd = `biased;`
      5: interval(max 1 p), behaviour beh mod 3 (0 Burst 1 Delay 2 Skip), k ticks, after tick i
         sleep(b_i) if b_i > 0                               6: f odd = polled once before the reset
      9: Box::pin(sleep(d)) polled once and sent on channel ch of the task's module
-     10: receive a boxed Sleep from channel ch of the task's module, then await it *)
+     10: receive a boxed Sleep from channel ch of the task's module, then await it
+     11: timeout(d, receive from channel ch); the received Sleep is dropped
+     12: select! { biased; receive from ch => 0, sleep(d) => 1 }, f odd: the receive branch comes first *)
 Definition beh_of (b : N) : behaviour :=
   if b mod 3 =? 0 then Burst else if b mod 3 =? 1 then Delay else Skip.
 
@@ -398,6 +453,8 @@ Definition dec_step (l : list N) : option (list step * list N) :=
   | 8 :: r => Some ([SLog], r)
   | 9 :: ch :: d :: r => Some ([SHandOver ch d], r)
   | 10 :: ch :: r => Some ([SRecvAwait ch], r)
+  | 11 :: d :: ch :: r => Some ([STimeoutRecv d ch], r)
+  | 12 :: f :: ch :: d :: r => Some ([SSelRecv (N.odd f) ch d], r)
   | _ => None
   end.
 
